@@ -39,6 +39,15 @@ pub fn sim_net_opts(rng: &mut Rng) -> NetOpts {
     o.max_restrictions = 4;
     o.v_min = if rng.chance(0.2) { 2.0 } else { 4.5 };
     o.p_cat = 0.15;
+    // a share of the networks has many links far shorter than one step of travel (several
+    // boundaries crossed per step)
+    if rng.chance(0.2) {
+        o.gaps = (10, 60);
+        o.short_links = Some((0.85, 2.0, 12.0));
+        o.p_double = 0.05;
+        o.max_restrictions = 2;
+        o.v_min = 8.0;
+    }
     o
 }
 
